@@ -442,9 +442,15 @@ def _handler_from_term(site: Site, which, t, node, capture=None) -> Optional[Han
     sc = fmod.scopes[fn]
     params = list(sc.params)
     bound = {}
-    for k, a in enumerate(pargs):
-        if k < len(params):
-            bound[params[k]] = a
+    npos = 0
+    for a in pargs:
+        if isinstance(a, tuple) and a and a[0] == "kw":
+            if a[1] in params:
+                bound[a[1]] = a[2]          # functools.partial(handler, observer=observer)
+            continue
+        if npos < len(params):
+            bound[params[npos]] = a
+        npos += 1
     event_param = None
     if which in ("on_next", "on_error"):
         posargs = [a.arg for a in fn.args.posonlyargs + fn.args.args if a.arg not in bound]
